@@ -114,6 +114,50 @@ def extract():
     return out
 
 
+def extract_dynamic():
+    """the pattern strings the transforms actually hand to einops.rearrange (observed on tiny tensors); robust against
+    refactorings that move the pattern into a constant / helper.  Returns name -> raw pattern, or None if anything fails."""
+    try:
+        import einops
+        import torch
+        from unittest import mock
+        import kappadata.transforms as T
+        seen = []
+        orig = einops.rearrange
+
+        def rec(tensor, pattern, *a, **kw):
+            seen.append(pattern)
+            return orig(tensor, pattern, *a, **kw)
+        out = {}
+        with mock.patch.object(einops, "rearrange", rec):
+            x = torch.arange(3 * 4 * 6, dtype=torch.float32).reshape(3, 4, 6)
+            ctx = {}
+            del seen[:]
+            p = T.PatchifyImage(patch_size=2)(x.clone(), ctx=ctx)
+            out["patchifyImage"] = list(seen)
+            del seen[:]
+            T.UnpatchifyImage()(p, ctx=ctx)
+            out["unpatchifyImage"] = list(seen)
+            del seen[:]
+            q = T.Patchify(patch_size=2)(x.clone())
+            out["patchify"] = list(seen)
+            del seen[:]
+            T.Unpatchify()(q)
+            out["unpatchify"] = list(seen)
+            del seen[:]
+            T.PatchwiseTransform(patch_size=2, transform=T.KDIdentityTransform())(x.clone())
+            pw = list(seen)
+        if any(len(v) != 1 for v in out.values()) or len(pw) != 4:
+            return None
+        if pw[0] != out["patchify"][0] or pw[3] != out["unpatchify"][0]:
+            return None
+        res = {k: v[0] for k, v in out.items()}
+        res["patchwiseFlatten"], res["patchwiseUnflatten"] = pw[1], pw[2]
+        return res
+    except Exception:
+        return None
+
+
 def lean_side(groups):
     return "[" + ", ".join("[" + ", ".join(f'"{a}"' for a in g) + "]" for g in groups) + "]"
 
@@ -183,6 +227,18 @@ def problems(pats):
 
 def generate():
     pats = extract()
+    dyn = extract_dynamic()
+    if dyn is not None:
+        # what the code does decides; the AST reading is kept as the fallback when the transforms cannot be run
+        for n in ORDER:
+            d = pats[n]
+            if d["raw"] != dyn[n]:
+                d["raw"], d["error"] = dyn[n], None
+                try:
+                    d["lhs"], d["rhs"] = parse_pattern(dyn[n])
+                except ValueError as e:
+                    d["lhs"], d["rhs"], d["error"] = [], [], str(e)
+            d["source"] = "observed on a real call"
     text = emit(pats)
     GEN.mkdir(parents=True, exist_ok=True)
     p = GEN / "Patterns.lean"
